@@ -14,14 +14,14 @@ LEVEL = "other"
 ASSUMES = ["A1", "A2", "A3", "A4", "A5", "A6"]
 PGM = "Geometry3D.geometry.polygon:ConvexPolygon."
 MANIFEST = dict(
-    text=("Mixed. PROVED: the vertex sort of ConvexPolygon (_check_and_sort_points) for n = 3 and n = 4 in EVERY input order (all n! permutations of a strictly convex polygon, each with symbolic in-plane coordinates): the result is a cyclic rotation "
+    text=("Mixed. PROVED: the vertex sort of ConvexPolygon (_check_and_sort_points) for n = 3 and n = 4 in EVERY input order (all n! permutations of a strictly convex polygon, each with symbolic in-plane coordinates) and for n = 5 in eight representative orders on every change, all 120 in the thorough tier: the result is a cyclic rotation "
           "of the counter-clockwise order, no vertex is lost, no 'convex check' error is raised; the frame lemma that ties the in-plane coordinates (p - c).v0, (p - c).v1 back to n.((b - a) x (j - a)) (Binet-Cauchy + BAC-CAB); the constructor's front end "
           "for 3-5 input points with every duplication pattern: duplicates are merged keeping first occurrences, fewer than three given points raise, the plane is the plane of the first three distinct points (negated for reverse=True), the centre is the "
           "vertex mean, the input tuple is deep-copied; -polygon is built from the same vertices with reverse=True and the plane of -(polygon) has the opposite normal, so -(-p) has the normal of p. "
           "BOUNDED (labelled): all permutations / duplications for catalogue polygons with 3-8 vertices, all face orders and sampled 2^F orientation choices for catalogue polyhedra (outward normals, vertex / edge / face sets, V - E + F = 2, centre inside), "
           "and intersection results fed back as inputs."),
     note=("A3: atan2 enters only through the sign of z, its values on the axes and the cross-product order of angles in the same open half-plane. The sort proof is in the in-plane frame of the code ((p - c).v0, (p - c).v1 as ghost coordinates), "
-          "shape bound n <= 4; n >= 5 and the polyhedron constructor (hash sets) are bounded only. A4, A5."),
+          "shape bound n <= 5; n >= 6 and the polyhedron constructor (hash sets) are bounded only. A4, A5."),
     technique="contract-based deductive verification of the vertex sort in the in-plane frame and of the constructor front end (z3) + labelled bounded stand-in over permutations / orientations",
     design_ref="DESIGN.md section 9 (C09), section 3.4",
 )
@@ -100,7 +100,7 @@ def _sort_concrete(vc, n, perm):
     """native replay: a concrete convex n-gon given in the order perm, through the real constructor"""
     g = C.G()
     import math
-    base = [(4, 0, 0), (0, 3, 0), (-3, 0, 0), (0, -2, 0)][:n] if n == 4 else [(4, 0, 0), (-1, 3, 0), (-2, -2, 0)]
+    base = {3: [(4, 0, 0), (-1, 3, 0), (-2, -2, 0)], 4: [(4, 0, 0), (0, 3, 0), (-3, 0, 0), (0, -2, 0)], 5: [(4, 0, 0), (2, 3, 0), (-2, 3, 0), (-4, -1, 0), (1, -4, 0)]}[n]
     pts = [g.Point(*base[k]) for k in perm]
     out = vc.call(g.ConvexPolygon, tuple(pts))
     vc.ensure("sort does not raise (no 'Convex Check Fails')", out.returned)
@@ -262,6 +262,11 @@ def groups(tier):
         for perm in itertools.permutations(range(n)):
             gs.append(Group("vertex sort[n=%d, input order %s]" % (n, "".join(map(str, perm))), sort_harness(n, perm), [PGM + "_check_and_sort_points"], stubs=sort_stubs,
                             world="FRAME", timeout_s=600, prove_ms=20000, expect_hits=["Vector.__mul__[frame coordinate]"]))
+    # n = 5: all 120 input orders in the thorough tier, eight representative ones (identity, reversed, the two pentagram orders, ...) on every change
+    perms5 = list(itertools.permutations(range(5))) if tier == "thorough" else [(0, 1, 2, 3, 4), (4, 3, 2, 1, 0), (0, 2, 4, 1, 3), (0, 3, 1, 4, 2), (2, 0, 3, 1, 4), (1, 4, 0, 3, 2), (3, 1, 4, 0, 2), (2, 4, 1, 0, 3)]
+    for perm in perms5:
+        gs.append(Group("vertex sort[n=5, input order %s]" % "".join(map(str, perm)), sort_harness(5, perm), [PGM + "_check_and_sort_points"], stubs=sort_stubs,
+                        world="FRAME", timeout_s=1200, prove_ms=30000, expect_hits=["Vector.__mul__[frame coordinate]"]))
     gs.append(Group("frame lemma (Binet-Cauchy)", h_frame_lemma, ["spec:in-plane frame coordinates"], world="COORD", timeout_s=300))
     pats = [(0, 1), (0,), (0, 1, 2), (0, 1, 0), (0, 0, 0), (0, 1, 2, 3), (0, 0, 1, 2), (0, 1, 0, 2), (0, 1, 2, 0), (0, 1, 1, 2), (0, 1, 2, 2), (0, 1, 0, 1), (0, 1, 2, 3, 4), (0, 1, 2, 0, 3), (0, 1, 2, 3, 1)]
     for pat in pats:
